@@ -7,6 +7,7 @@ import (
 	"github.com/XiXi-2024/xixi-kv/fio"
 	"github.com/XiXi-2024/xixi-kv/index"
 	"github.com/XiXi-2024/xixi-kv/utils"
+	"github.com/XiXi-2024/xixi-kv/verifhook"
 	"github.com/gofrs/flock"
 	"io"
 	"os"
@@ -226,6 +227,7 @@ func (db *DB) Put(key []byte, value []byte) error {
 	if err != nil {
 		return err
 	}
+	verifhook.Point("put.afterAppend", "")
 
 	// 更新索引, 并维护无效数据量
 	if oldPos := db.index.Put(key, pos); oldPos != nil {
@@ -268,6 +270,7 @@ func (db *DB) Delete(key []byte) error {
 	if pos := db.index.Get(key); pos == nil {
 		return nil
 	}
+	verifhook.Point("del.afterCheck", "")
 
 	// 构造 LogRecord 设置删除状态, 作为墓碑值追加到数据文件中
 	logRecord := db.recordPool.Get().(*datafile.LogRecord)
@@ -282,6 +285,7 @@ func (db *DB) Delete(key []byte) error {
 	}
 	// 墓碑值本身可视为无效数据
 	db.reclaimSize += int64(pos.Size)
+	verifhook.Point("del.afterAppend", "")
 
 	// 更新索引信息
 	oldPos := db.index.Delete(key)
@@ -298,6 +302,7 @@ func (db *DB) Delete(key []byte) error {
 func (db *DB) ListKeys() [][]byte {
 	iterator := db.index.Iterator(false)
 	defer iterator.Close()
+	verifhook.Point("listkeys.afterSnapshot", "")
 	// 迭代器遍历的是创建时刻的快照, 而此处查询的是索引的实时大小,
 	// 二者可能因并发写入而不一致, 因此仅作为容量提示, 不能作为下标上界
 	keys := make([][]byte, 0, db.index.Size())
